@@ -418,7 +418,7 @@ Definition text_covers (pe : pe_data) (f : rtfunc) (address : N) : Prop :=
 Definition pe_wf_at (pe : pe_data) (address : N) (first : bool) : Prop :=
   forall f u0, pe_lookup (pe_funcs pe) address None = Some f -> ui_at (pe_uinfos pe) (rt_uinfo f) = UiOk u0 ->
     (* the chain is present, finite, and keeps the frame register of the primary info *)
-    (exists infos, chain_infos (S (length (pe_uinfos pe))) pe u0 = Ok (Some infos) /\ Forall (same_fp u0) infos /\
+    (exists infos, chain_infos CHAIN_LIMIT pe u0 = Ok (Some infos) /\ Forall (same_fp u0) infos /\
                    Forall (fun u => Forall (fun o => uop_aligned (snd o)) (ui_ops u)) infos /\
                    (* mov-saves are listed first (compilers give them the end-of-prolog offset), do not target
                       rsp or the frame register, and are in force only once the frame register is established *)
@@ -463,9 +463,9 @@ Proof.
   assert (Hbeg : rt_begin f <= address) by (eapply pe_lookup_begin; [|exact Elk]; discriminate).
   (* the unwind-code path, shared by both cases *)
   assert (Hcodes : epilog_at pe f u0 address = None ->
-    match ms_chain (S (length (pe_uinfos pe))) (ms_frame_base u0 (address - rt_begin f) rg) pe u0 false (address - rt_begin f) rg m with
+    match ms_chain CHAIN_LIMIT (ms_frame_base u0 (address - rt_begin f) rg) pe u0 false (address - rt_begin f) rg m with
     | Some (inl rg') => ms_final rg' m | Some (inr r) => Some r | None => None end = Some (ra, rg_ms) ->
-    let r := match chain_infos (S (length (pe_uinfos pe))) pe u0 with
+    let r := match chain_infos CHAIN_LIMIT pe u0 with
         | Hang => (CbHang, pe_eff_alloc)
         | Ok None => (CbErr rg, pe_eff_alloc)
         | Ok (Some infos) =>
